@@ -487,8 +487,37 @@ def gen_commands(rng, meta: T.Dict[str, T.Any], n: int) -> T.List[T.Dict[str, T.
     added: T.List[str] = []
     last_add: T.Optional[T.Tuple[str, str, T.List[str]]] = None
     last_rm: T.Optional[T.Tuple[str, str, T.List[str]]] = None
+    created: T.Optional[T.Tuple[str, str]] = None       # what the previous command created / set: (kind, name)
     for _ in range(n):
         r = rng.random()
+        if created and rng.random() < 0.7:
+            # create something, then address it in the NEXT command of the same sequence
+            kind_, name_ = created
+            created = None
+            if kind_ == 'target':
+                r3 = rng.random()
+                if r3 < 0.3:
+                    cmds.append({'type': 'target', 'target': name_, 'operation': 'src_add', 'sources': rng.sample(['new1.c', 'new2.c', 's1.c'], rng.randint(1, 2))})
+                elif r3 < 0.45:
+                    cmds.append({'type': 'target', 'target': name_, 'operation': 'info'})
+                elif r3 < 0.6:
+                    cmds.append({'type': 'kwargs', 'function': 'target', 'id': name_, 'operation': 'set', 'kwargs': {'install': True}})
+                elif r3 < 0.72:
+                    cmds.append({'type': 'target', 'target': name_, 'operation': 'target_rm'})
+                elif r3 < 0.87:
+                    # the same target again: must be refused
+                    cmds.append({'type': 'target', 'target': name_, 'operation': 'target_add', 'sources': ['new0.c'],
+                                 'target_type': 'executable', 'subdir': ''})
+                else:
+                    cmds.append({'type': 'target', 'target': name_, 'operation': 'extra_files_add', 'sources': ['newe0.txt']})
+                continue
+            if kind_ == 'kwargs':
+                fn_, id_ = name_.split('|', 1)
+                cmds.append({'type': 'kwargs', 'function': fn_, 'id': id_, 'operation': 'info', 'kwargs': {}})
+                continue
+            if kind_ == 'defopt':
+                cmds.append({'type': 'default_options', 'operation': 'delete', 'options': {k_: None for k_ in name_.split('|')}})
+                continue
         if last_add and rng.random() < 0.5:
             t, kind, fs = last_add     # add then remove the same files
             cmds.append({'type': 'target', 'target': t, 'operation': 'src_rm' if kind == 'src' else 'extra_files_rm', 'sources': fs})
@@ -542,12 +571,13 @@ def gen_commands(rng, meta: T.Dict[str, T.Any], n: int) -> T.List[T.Dict[str, T.
                 fs = [rng.choice(have)] if have else [rng.choice(meta['extra_pool'])]
             cmds.append({'type': 'target', 'target': t, 'operation': 'extra_files_rm', 'sources': fs})
             last_rm = (t, 'extra', fs)
-        elif r < 0.60:
+        elif r < 0.62:
             name = 'added%d' % len(added)
             added.append(name)
             cmds.append({'type': 'target', 'target': name, 'operation': 'target_add',
                          'sources': rng.sample(['new0.c', 'new1.c', 's0.c'], rng.randint(1, 2)),
                          'target_type': rng.choice(['executable', 'library', 'static_library']), 'subdir': ''})
+            created = ('target', name)
         elif r < 0.65 and live:
             t = rng.choice(live)
             cmds.append({'type': 'target', 'target': t, 'operation': 'target_rm'})
@@ -570,6 +600,8 @@ def gen_commands(rng, meta: T.Dict[str, T.Any], n: int) -> T.List[T.Dict[str, T.
                     pool_ids = ['some_id']
                 kw[k] = rng.sample(pool_ids, 1) if rng.random() < 0.7 else rng.choice(pool_ids)
             cmds.append({'type': 'kwargs', 'function': 'target', 'id': t, 'operation': op, 'kwargs': kw})
+            if op == 'set':
+                created = ('kwargs', 'target|' + t)
         elif r < 0.87:
             op = rng.choice(['set', 'delete', 'add', 'remove', 'remove', 'remove_regex', 'remove_regex'])
             kw = {}
@@ -601,6 +633,8 @@ def gen_commands(rng, meta: T.Dict[str, T.Any], n: int) -> T.List[T.Dict[str, T.
                     if len(kw[k]) == 1 and rng.random() < 0.3:
                         kw[k] = kw[k][0]
             cmds.append({'type': 'kwargs', 'function': 'project', 'id': '/', 'operation': op, 'kwargs': kw})
+            if op == 'set':
+                created = ('kwargs', 'project|/')
         elif r < 0.91 and meta['deps']:
             dname = rng.choice(sorted(meta['deps']))
             op = rng.choice(['set', 'delete', 'add', 'remove', 'remove_regex'])
@@ -645,6 +679,8 @@ def gen_commands(rng, meta: T.Dict[str, T.Any], n: int) -> T.List[T.Dict[str, T.
                 for k in ks:
                     opts[k] = None
             cmds.append({'type': 'default_options', 'operation': op, 'options': opts})
+            if op == 'set' and opts:
+                created = ('defopt', '|'.join(sorted(opts)))
     return cmds
 
 
@@ -796,8 +832,20 @@ def gen_tree(rng, ncmd: int) -> T.Dict[str, T.Any]:
                 fs = [rng.choice(tm['srcs'])]
                 fs = ['./' + fs[0]] if rng.random() < 0.5 else fs
             cmds.append({'type': 'target', 'target': t, 'operation': 'src_rm', 'sources': fs})
-        elif r < 0.82:
+        elif r < 0.80:
             cmds.append({'type': 'target', 'target': t, 'operation': 'info'})
+        elif r < 0.86:
+            name = 'tadd%d' % len(cmds)
+            cmds.append({'type': 'target', 'target': name, 'operation': 'target_add', 'subdir': '', 'target_type': 'executable',
+                         'sources': [os.path.join(rng.choice(dirs), 'new0.c')]})
+            follow = rng.random()
+            if follow < 0.4:
+                cmds.append({'type': 'target', 'target': name, 'operation': 'src_add', 'sources': [os.path.join(rng.choice(dirs), 'new1.c')]})
+            elif follow < 0.6:
+                cmds.append({'type': 'target', 'target': name, 'operation': 'info'})
+            elif follow < 0.75:
+                cmds.append({'type': 'target', 'target': name, 'operation': 'target_add', 'subdir': '', 'target_type': 'executable',
+                             'sources': ['new1.c']})
         elif r < 0.94:
             cmds.append({'type': 'kwargs', 'function': 'target', 'id': t, 'operation': rng.choice(['set', 'set', 'delete']),
                          'kwargs': {'install': rng.random() < 0.5} if rng.random() < 0.7 else {'build_by_default': True}})
@@ -807,6 +855,7 @@ def gen_tree(rng, ncmd: int) -> T.Dict[str, T.Any]:
             if len(live) > 1:
                 cmds.append({'type': 'target', 'target': t, 'operation': 'target_rm'})
                 live = [x for x in live if x != t]
+    cmds = cmds[:3]
     meta = {'targets': targets, 'deps': {}, 'project': {}, 'hazard': 'tree', 'pool': [], 'extra_pool': [], 'shared': [],
             'allfiles': allfiles, 'dirs': dirs}
     return {'files': files, 'cmds': cmds, 'meta': meta, 'mode': 'single', 'prints': False,
